@@ -19,7 +19,7 @@ KIND = {"1": "hit", "M": "mine", "L": "lift", "F": "fake", "K": "keysound"}
 def timeline(offset_text, bpms):
     """bpms: [(beat Fraction, bpm Fraction)] any order. Returns (T(beat)->Fraction ms, segments)."""
     off = -F(offset_text) * 1000
-    bp = sorted(bpms)
+    bp = sorted(bpms, key=lambda x: x[0])  # stable: of two entries on one beat the later one of the file is in force
     segs = [(bp[0][0], off, bp[0][1])]
     for b, v in bp[1:]:
         p0, t0, v0 = segs[-1]
